@@ -328,7 +328,7 @@ def compute_landmarks_rescale_time(
     if n_landmarks == 0:
         return None
 
-    ls = validate_positive_float(ls, "ls")
+    ls = validate_positive_float(ls, "ls", allow_inf=True)
     ls_time = validate_positive_float(ls_time, "ls_time", allow_inf=True)
     x = validate_time_x(x, times)
     time_factor = ls / ls_time
